@@ -219,14 +219,19 @@ EagerStages(p) == EagerAt(Stages(p), 1, "Empty")
 (* Parameters.                                                             *)
 (***************************************************************************)
 DefaultParams == [nt |-> "auto", ntv |-> 0, ck |-> "auto", csv |-> 0]
+\* parameter values are logged clamped to 2*10^9 (TLC integers are 32 bit); an op may name a
+\* larger value as v << sh
+BigVal == 2000000000
+OpVal(o) == IF "sh" \in DOMAIN o /\ o.sh > 0 THEN BigVal ELSE IF o.v > BigVal THEN BigVal ELSE o.v
 SetParam(pr, o) ==
-  CASE o.k = "nt" -> IF o.v = 0 THEN [pr EXCEPT !.nt = "auto", !.ntv = 0]
-                     ELSE [pr EXCEPT !.nt = "max", !.ntv = o.v]
-    [] o.k = "cs" -> IF o.v = 0 THEN [pr EXCEPT !.ck = "auto", !.csv = 0]
-                     ELSE [pr EXCEPT !.ck = "exact", !.csv = o.v]
-    [] o.k = "csmin" -> IF o.v = 0 THEN [pr EXCEPT !.ck = "auto", !.csv = 0]
-                        ELSE [pr EXCEPT !.ck = "min", !.csv = o.v]
-    [] OTHER -> pr
+  LET v == OpVal(o)
+  IN  CASE o.k = "nt" -> IF v = 0 THEN [pr EXCEPT !.nt = "auto", !.ntv = 0]
+                         ELSE [pr EXCEPT !.nt = "max", !.ntv = v]
+        [] o.k = "cs" -> IF v = 0 THEN [pr EXCEPT !.ck = "auto", !.csv = 0]
+                         ELSE [pr EXCEPT !.ck = "exact", !.csv = v]
+        [] o.k = "csmin" -> IF v = 0 THEN [pr EXCEPT !.ck = "auto", !.csv = 0]
+                            ELSE [pr EXCEPT !.ck = "min", !.csv = v]
+        [] OTHER -> pr
 IsSequential(pr) == pr.nt = "max" /\ pr.ntv = 1
 
 RECURSIVE ParamsAfter(_, _, _)
